@@ -242,7 +242,7 @@ BIP_MORE = [
     _cons('bipartite', ['regular', 4, 2, 1], 'saved', 'dot', False),
     _cons('bipartite', ['empty', 3, 3, 'plantbiclique', 2, 2], 'saved', 'kthlist', False),
     _cons('bipartite', ['glrm', 3, 3, 2, 'addedges', 3], 'saved', 'matrix', True),
-    _cons('bipartite', ['glrp', 2, 3, 0.5, 'plantbiclique', 1, 2, 'addedges', 1], 'saved', 'kthlist', True),
+    _cons('bipartite', ['glrp', 3, 3, 0.3, 'plantbiclique', 1, 2, 'addedges', 1], 'saved', 'kthlist', True),
     _file('bipartite', 'B1', 'kthlist'),
     _file('bipartite', 'B2', 'gml'),
     _file('bipartite', 'B2', 'dot'),
